@@ -132,16 +132,17 @@ theorem forgive_le (F t : Nat) (h1 : t < 18446744073709551616) (h2 : fractional 
   have hs := seconds_lt t h1
   have hdt : dts t / 1000 < 4294967296 := by unfold dts partsAsDuration; omega
   unfold forgive
-  rw [pack_eq _ _ _ (by omega)]
-  rw [pack_eq _ _ _ hdt] at hrep
-  have h4 := dts_mod4 t
-  by_cases hF : F ≤ dts t
-  · have : (dts t - F) / 1000 < dts t / 1000 ∨
+  split
+  · have hp : pack 0 0 (node t) = node t := by unfold pack durSecs durFrac; omega
+    rw [hp]; unfold node; omega
+  · rename_i hF
+    rw [pack_eq _ _ _ (by omega)]
+    rw [pack_eq _ _ _ hdt] at hrep
+    have h4 := dts_mod4 t
+    have : (dts t - F) / 1000 < dts t / 1000 ∨
         ((dts t - F) / 1000 = dts t / 1000 ∧ (dts t - F) % 1000 / 4 ≤ dts t % 1000 / 4) := by omega
     have hc := counter_lt t; have hn := node_lt t
     omega
-  · have h0 : dts t - F = 0 := by omega
-    rw [h0]; omega
 
 /-- Soundness from the window alternative. -/
 theorem sound_of_window (F : Nat) (hF : F % 4 = 0) (s : OrSwot) (A H : List Op) (hg : GoodHist H)
@@ -167,7 +168,7 @@ theorem sound_of_downClosed (F : Nat) (s : OrSwot) (A H : List Op) (hg : GoodHis
     rcases hm1 with ⟨o', ho', hts⟩ | hdef
     · subst hts
       have hval := hg.valid o' (hsub o' ho')
-      have hle := forgive_le F o'.ts hval.1 hval.2.1
+      have hle := forgive_le F o'.ts hval.1 hval.2
       exact hdc o' ho' o ho hm2.symm (by omega)
     · subst hdef
       have hp : pack 0 0 (node o.ts) = node o.ts := by unfold pack durSecs durFrac; omega
@@ -177,7 +178,7 @@ theorem sound_of_downClosed (F : Nat) (s : OrSwot) (A H : List Op) (hg : GoodHis
         have h1 : dts (node o.ts) = 0 := by unfold dts partsAsDuration seconds fractional; omega
         have h2 : counter (node o.ts) = 0 := by unfold counter; omega
         have h3 : node (node o.ts) = node o.ts := by unfold node; omega
-        rw [h1, h2, h3]; simpa using hp
+        rw [h1, h2, h3]; split <;> simpa using hp
       rw [hm3, hp, hf] at hb
       unfold node at hb; omega
 
